@@ -20,8 +20,23 @@ sh("git checkout -q -- . && git clean -fdq", cwd=wt)
 rc, o = sh(f"git apply --check {patch}", cwd=wt)
 if rc != 0:
     print("patch does not apply:", o); sys.exit(1)
+# a drop-in demo: test files copied into a package directory of the worktree (SEED_DROPIN=<pkg dir>[:<-run pattern>])
+dropin = os.environ.get("SEED_DROPIN", "")
+def run_demo():
+    if not dropin:
+        return sh(f"go test -count=1 {tagarg}./...", cwd=demo)
+    d, _, pat = dropin.partition(":")
+    copied = []
+    for f in os.listdir(demo):
+        if f.endswith("_test.go"):
+            shutil.copyfile(os.path.join(demo, f), os.path.join(wt, d, f)); copied.append(os.path.join(wt, d, f))
+    try:
+        return sh(f"go test -vet=off -count=1 {tagarg}{'-run ' + pat + ' ' if pat else ''}./{d}/", cwd=wt)
+    finally:
+        for f in copied: os.remove(f)
+meta["demo_dropin"] = dropin
 # without the change: demo passes
-rc0, o0 = sh(f"go test -count=1 {tagarg}./...", cwd=demo)
+rc0, o0 = run_demo()
 meta["demo_without_change"] = dict(exit=rc0, tail=o0[-600:])
 sh(f"git apply {patch}", cwd=wt)
 rcb, ob = sh("go build ./... ", cwd=wt)
@@ -32,7 +47,7 @@ if tags:
 fails = re.findall(r"^\s*--- FAIL: (\S+)", os_, re.M) + re.findall(r"^FAIL[ \t]+(\S+)", os_, re.M)
 suite_ok = rcb == 0 and all(("journald" in f or f == "TestWriteReturnsNoOfWrittenBytes" or "RandomSampler" in f or f == "TestSamplers") for f in fails)  # RandomSampler is a known statistical flake of the pinned suite
 meta["suite_with_change"] = dict(build_exit=rcb, failures=fails, ok=suite_ok)
-rc1, o1 = sh(f"go test -count=1 {tagarg}./...", cwd=demo)
+rc1, o1 = run_demo()
 meta["demo_with_change"] = dict(exit=rc1, tail=o1[-1200:])
 confirmed = suite_ok and rc0 == 0 and rc1 != 0
 meta["confirmed"] = confirmed
